@@ -11,6 +11,7 @@ import (
 	"errors"
 	"fmt"
 	"os"
+	"runtime/debug"
 	"sort"
 	"strings"
 	"time"
@@ -68,15 +69,16 @@ type SubGate struct {
 }
 
 type Scenario struct {
-	Slot     int
-	Init     [][]Op // setup transactions (committed one after the other, fault-free)
-	Writers  []WriterSpec
-	Gates    []string      // call names that park a writer during Commit (default l2.Lock, l2.IsLocked, l2.DualLock)
-	SubGates []SubGate     // extra park points INSIDE a step of one writer (it then holds whatever it holds there)
-	SepVals  bool          // values in a separate segment (IsValueDataInNodeSegment=false, not actively persisted)
-	ValCache bool          // with SepVals: values also globally cached (IsValueDataGloballyCached)
-	Deadline time.Duration // per-writer context deadline for Commit (0 = none)
-	MaxTime  time.Duration // transaction maxTime (default 1 minute)
+	Slot           int
+	Init           [][]Op // setup transactions (committed one after the other, fault-free)
+	Writers        []WriterSpec
+	Gates          []string      // call names that park a writer during Commit (default l2.Lock, l2.IsLocked, l2.DualLock)
+	SubGates       []SubGate     // extra park points INSIDE a step of one writer (it then holds whatever it holds there)
+	ProbeAtSubPark bool          // take a cold dump (for the direct oracle only) whenever a writer parks at a sub-gate
+	SepVals        bool          // values in a separate segment (IsValueDataInNodeSegment=false, not actively persisted)
+	ValCache       bool          // with SepVals: values also globally cached (IsValueDataGloballyCached)
+	Deadline       time.Duration // per-writer context deadline for Commit (0 = none)
+	MaxTime        time.Duration // transaction maxTime (default 1 minute)
 }
 
 // Writer is the run-time state of one writer.
@@ -348,6 +350,8 @@ func ErrClass(err error) string {
 	s := err.Error()
 	var te sop.ErrTimeout
 	switch {
+	case strings.HasPrefix(s, "panic: "):
+		return "err:panic"
 	case errors.Is(err, txk.ErrInjected) || strings.Contains(s, "injected fault"):
 		return "err:injected"
 	case errors.As(err, &te) || strings.Contains(s, "deadline") || strings.Contains(s, "timed out") || strings.Contains(s, "timeout"):
@@ -423,13 +427,52 @@ func (w *Writer) LoopPasses() int {
 	return n
 }
 
+// ReaderPanic: the real code panicked inside the cold reader (Dump).
+type ReaderPanic struct {
+	Msg    string // the panic value
+	Stack  string // the innermost frames inside github.com/sharedcode/sop
+	During string // what the reader was doing: scan | find:<key> | value:<key>
+}
+
+func (e *ReaderPanic) Error() string {
+	return "panic in cold reader during " + e.During + ": " + e.Msg + " at " + e.Stack
+}
+
+// doing is what the cold reader is doing right now (one reader at a time: the scheduler is single-threaded).
+var doing string
+
+// panicSite keeps the first few sop frames of a stack trace: "btree.(*Btree).getCurrentItem<btree.(*Btree).Find".
+func panicSite(stack []byte) string {
+	var fr []string
+	for _, l := range strings.Split(string(stack), "\n") {
+		if strings.HasPrefix(l, "github.com/sharedcode/sop/") {
+			f := strings.TrimPrefix(l, "github.com/sharedcode/sop/")
+			if i := strings.LastIndex(f, "("); i > 0 {
+				f = f[:i]
+			}
+			f = strings.ReplaceAll(f, "[...]", "")
+			fr = append(fr, f)
+			if len(fr) == 3 {
+				break
+			}
+		}
+	}
+	return strings.Join(fr, "<")
+}
+
 // Dump is what a cold reader (another, freshly started process) sees of the store: Count() and the items "k=v" of
 // a First/Next scan. A scan that cannot even load the root node (count > 0 but no root: a failed first commit whose
 // count delta stayed) yields no items.
 func (r *Run) Dump() (int64, []string, error) {
 	var count int64
 	var items []string
-	err := r.Env.AsOtherProcess(func(o *txk.Env) error {
+	err := r.Env.AsOtherProcess(func(o *txk.Env) (rerr error) {
+		// a panic of the real code inside the cold reader must not void the run: it is handed back as a ReaderPanic
+		defer func() {
+			if p := recover(); p != nil {
+				rerr = &ReaderPanic{Msg: fmt.Sprint(p), Stack: panicSite(debug.Stack()), During: doing}
+			}
+		}()
 		open := func() (*txk.Txn, btree.BtreeInterface[int, string], error) {
 			t, err := o.NewTxn(r.Ctx, sop.ForReading, time.Minute, nil)
 			if err != nil {
@@ -452,6 +495,7 @@ func (r *Run) Dump() (int64, []string, error) {
 		}
 		count = b.Count()
 		var keys []int
+		doing = "scan"
 		ok, err := b.First(r.Ctx)
 		if err != nil {
 			t.T.Rollback(r.Ctx)
@@ -482,10 +526,12 @@ func (r *Run) Dump() (int64, []string, error) {
 					return err
 				}
 			}
+			doing = fmt.Sprintf("find:%d", k)
 			found, ferr := b.Find(r.Ctx, k, false)
 			var v string
 			var verr error
 			if ferr == nil && found {
+				doing = fmt.Sprintf("value:%d", k)
 				v, verr = b.GetCurrentValue(r.Ctx)
 			}
 			switch {
